@@ -19,9 +19,9 @@ META = dict(
                 '(prefix first, ints numerically, strings by code point, int before string); the KeyPathSet trie, modelled as the literal dict of dicts of the code, refines a mathematical set under '
                 'add/remove/in/union/intersection/difference/rebase, iteration lists exactly the members once, bool is non-emptiness, no API sequence raises (for all paths once the open dollar finding is repaired; '
                 'as the code is: for all paths without a dollar key, plus a refutation witness); traversal visits every node exactly once and the reported path looked up from the root returns the node; '
-                'utils.traverse with arbitrary visitors logs exactly the full log cut after the first False; pg.traverse returns False iff some visitor answered STOP; pg.query is characterised exactly for enter_selected True and False; merge_tree (merge_fn=None) lookup law, idempotence and agreement with canonicalize\'s conflict-checking merge; add(include_intermediate=True) on any reachable set; canonicalize(flatten(v, False)) = v for every nested value with distinct admissible keys and no dict whose keys are exactly 0..n-1 (any depth, lists and dicts mixed). Tie: (1) a fail-closed ast translator regenerates, on every run, the bodies of KeyPath.parse, _append_key, path_str and _has_special_chars statement by statement as programs of a small imperative language (Gen/KeyPathSrc.v); interpreting them is proved equal to the model\'s parse/format, so the round-trip theorem holds for the code as translated (C10_parse_format_src); (2) every modelled operation is run against value_location.py / hierarchical.py / pg.traverse / pg.query on the same inputs on every run '
+                'utils.traverse with arbitrary visitors logs exactly the full log cut after the first False; pg.traverse returns False iff some visitor answered STOP; pg.query is characterised exactly for enter_selected True and False; merge_tree (merge_fn=None) lookup law, idempotence and agreement with canonicalize\'s conflict-checking merge; add(include_intermediate=True) on any reachable set; canonicalize(flatten(v, False)) = v for every nested value with distinct admissible keys and no dict whose keys are exactly 0..n-1 (any depth, lists and dicts mixed). Tie: (1) a fail-closed ast translator regenerates, on every run, the bodies of KeyPath.parse, _append_key, path_str and _has_special_chars statement by statement as programs of a small imperative language (Gen/KeyPathSrc.v); interpreting them is proved equal to the model\'s parse/format, so the round-trip theorem holds for the code as translated (C10_parse_format_src), and likewise the per-entry decisions of the KeyPathSet helpers _remove_same/_remove_diff/_merge (Gen/KeyPathSetSrc.v, C10_src_set_kernels; the translator also requires the deep copies); (2) every modelled operation is run against value_location.py / hierarchical.py / pg.traverse / pg.query on the same inputs on every run '
                 '(12 case kinds, exact outcome incl. error kind and set iteration order), the Unicode digit table of the model is compared with the interpreter, and the property text is evaluated on the real objects on every case.'),
-    level_note=('Partial: utils.merge, utils.transform, merge_into_list and the error outcomes of canonicalize on arbitrary path-keyed dicts are modelled and checked by correspondence and oracle only (no theorem yet). '
+    level_note=('Partial: utils.merge, utils.transform with a deleting function, the result of merge_into_list and the exact KeyError conditions of canonicalize are modelled and checked by correspondence and oracle only (no theorem yet). '
                 'Not modelled: custom key objects, bool keys, tuples, MISSING_VALUE leaves, pg.Object nodes, regex/where of pg.query, user merge functions, subtree aliasing. '
                 'Trusted: Coq kernel, stdlib DecimalZ, extraction cross-checked by vm_compute, the Python harness (generators, driver, exception canonicalisation), CPython str.isdigit/int/str comparison. '
                 'No open finding: the collision of the path key "$" with the trie end marker was repaired (b919440); the quirk flag q_dollar stays in the model and is set by replaying the witness.'),
